@@ -64,7 +64,8 @@ def parseObs : SExp → Option RoleObs
 
 def parseNode (kind : String) (d v u l : SExp) : Option Node := do
   let own ← parseLevel [d, v, u]
-  pure { own := own, locals := (← parseKV l), task := kind == "T" }
+  -- `N` = the SITE of an include role (its single child is the root of the included workflow)
+  pure { own := own, locals := (← parseKV l), task := kind == "T", site := kind == "N" }
 
 /-- Sibling template roles (plain or iterator) → `TForest`. -/
 partial def parseSiblings : List SExp → Option TForest
@@ -144,11 +145,12 @@ def snapSx (keys : List String) (special : KV) (tmpl : Option (KV × KV)) (p : E
 
 /-- model = the interpretation of `envWriteTable` (the code's rows); Spec = `envOk` (the documented kinds +
     "a user-supplied value is never displaced") on what the implementation showed. -/
-def verdictEnv (keys : List String) (sd sv u : KV) (t : Forest) (items : List Item) (tmpl : Option (KV × KV))
+def verdictEnv (keys : List String) (sd sv u : KV) (t tLoaded : Forest) (items : List Item) (tmpl : Option (KV × KV))
     (impl : String) : String :=
   if !keysClear keys then "BADINPUT\t0\t-" else
   let special : KV := specialKeys.map fun k => (k, "?")
-  let model := SExp.list ((snapshots envWriteTable sd sv u t items).map (snapSx keys special tmpl))
+  -- `tLoaded` = the template loaded step by step (`load codeLoad`), `t` = the template as the rule reads it
+  let model := SExp.list ((snapshots envWriteTable sd sv u tLoaded items).map (snapSx keys special tmpl))
   let obs? : Option (List SnapObs) :=
     match (SExp.parse impl).bind SExp.list? with
     | some os => os.mapM? parseSnap
@@ -166,7 +168,7 @@ def processLine (line : String) : String :=
         let tmplKeys := match tmpl with | some (a, b) => keysOfKV a ++ keysOfKV b | none => []
         let keys := sortDedup (envKeys ++ keysOfKV sd ++ keysOfKV sv ++ keysOfKV u ++ tforestKeys tf ++ tmplKeys
                                ++ items.filterMap Item.key?)
-        verdictEnv keys sd sv u (expand tf) items tmpl impl
+        verdictEnv keys sd sv u (expand tf) (load codeLoad tf) items tmpl impl
       | _, _, _, _, _, _ => "BADINPUT\t0\t-"
     | some (.list [_style, .list envL, tree, .list tmplL]) =>
       match envTmpl envL tmplL with
@@ -180,16 +182,17 @@ def processLine (line : String) : String :=
       match envTmpl envL tmplL, parseSiblings [tree], opsL.mapM? parseWrite with
       | some (env, tmpl), some tf, some ws =>
         let above : Path := match env with | some e => [e] | none => []
+        -- the MODEL loads the template step by step (`load codeLoad`: where each kind of role publishes
+        -- its iterator Locals) and mutates the loaded tree write by write; the SPEC reads the template by
+        -- the rule (`expand`) and replays, per role, only the writes made on that role or on an ancestor
         let loaded := expand tf
-        -- the MODEL mutates the loaded tree write by write; the SPEC replays, per role,
-        -- only the writes made on that role or on one of its ancestors
-        let roles := rolesAfter loaded ws above tmpl
+        let roles := rolesAfter (load codeLoad tf) ws above tmpl
         let specRoles := rolesReplayed loaded ws above tmpl
         let lv (x : Level) := keysOfKV x.defaults ++ keysOfKV x.vars ++ keysOfKV x.userVars
         let envKeys := match env with | some e => lv e | none => []
         let tmplKeys := match tmpl with | some (a, b) => keysOfKV a ++ keysOfKV b | none => []
         let keys := sortDedup (envKeys ++ tforestKeys tf ++ tmplKeys ++ ws.map (·.op.key))
-        verdict keys roles specRoles impl (writesOk keys loaded ws above tmpl)
+        verdict keys roles specRoles impl (loadedOk keys tf ws above tmpl)
       | _, _, _ => "BADINPUT\t0\t-"
     | _ => "BADINPUT\t0\t-"
   | _ => "BADLINE\t0\t-"
